@@ -133,7 +133,20 @@ private:
   bool enabled_locked(int t) {
     auto& s = m_slots[t];
     if (s.st != PARKED) return false;
-    if (s.waddr != nullptr && s.waddr->load(std::memory_order_seq_cst) == s.wold) return false;
+    if (s.waddr != nullptr) {
+      // label prefix selects what the point waits for: "m:" a std::mutex that must be free (some
+      // other thread holds it across its own schedule points), "b:" an atomic<bool>::wait(old),
+      // none: an atomic<uint32_t>::wait(old)
+      if (s.label[0] == 'm' && s.label[1] == ':') {
+        auto* mtx = const_cast<std::mutex*>(reinterpret_cast<const std::mutex*>(s.waddr));
+        if (!mtx->try_lock()) return false;
+        mtx->unlock();
+        return true;
+      }
+      if (s.label[0] == 'b' && s.label[1] == ':')
+        return reinterpret_cast<const std::atomic<bool>*>(s.waddr)->load(std::memory_order_seq_cst) != (s.wold != 0);
+      if (s.waddr->load(std::memory_order_seq_cst) == s.wold) return false;
+    }
     return true;
   }
 
